@@ -90,6 +90,9 @@ def handleMem (st : DState) (ws : List String) : Option (DState × String) :=
   | ["area", s, d, nm] => do
     let s ← parseHex? s; let d ← parseHexBytes? d
     pure (memRes st (initArea st.m.mem s d (parseName nm)))
+  | ["areaz", s, n, seed, nm] => do
+    let s ← parseHex? s; let n ← parseHex? n; let seed ← parseHex? seed
+    pure (memRes st (initArea st.m.mem s (lcgBytes seed n) (parseName nm)))
   | ["zero", s, n, nm] => do
     let s ← parseHex? s; let n ← parseHex? n
     pure (memRes st (initZero st.m.mem s n (parseName nm)))
@@ -227,6 +230,13 @@ def handleMachine (st : DState) (ws : List String) : Option (DState × String) :
     if h : i < 16 then
       pure ({ st with m := { st.m with regs := { st.m.regs with xmm := st.m.regs.xmm.set i (BitVec.ofNat 128 v) } } }, "-")
     else none
+  | ["setxmms", v] =>
+    match (v.splitOn ",").mapM parseHex? with
+    | some vals =>
+      if vals.length = 16 then
+        some ({ st with m := { st.m with regs := { st.m.regs with xmm := Vector.ofFn fun i => BitVec.ofNat 128 (vals.getD i.val 0) } } }, "-")
+      else none
+    | none => none
   | ["xmms"] =>
     if st.poisoned then some (st, "unspecified") else
     some (st, " ".intercalate ((List.finRange 16).map fun i => toHex st.m.regs.xmm[i].toNat))
@@ -236,6 +246,10 @@ def handleMachine (st : DState) (ws : List String) : Option (DState × String) :
     if st.poisoned then some (st, "unspecified") else
     some (st, if st.m.callStack.isEmpty then "none" else " ".intercalate (st.m.callStack.map toHex))
   | ["render"] => some (st, "ok")
+  | ["nonative"] => some (st, "-")
+  | ["table"] =>
+    -- the implemented instruction forms according to the model's dispatch table
+    some (st, " ".intercalate ((table.filter fun (_, h) => match h with | .unimplemented => false | _ => true).map (·.1)))
   | ["log"] => if st.poisoned then some (st, "unspecified") else some (st, if st.m.log.isEmpty then "none" else " ".intercalate st.m.log)
   | ["hook", phase, mn, id, outcome, edit] =>
     if st.m.hooksRunning then some (st, "err") else
